@@ -212,6 +212,7 @@ func propC20(w *World, r *Report) {
 		}
 	}
 	n := 0
+	nInstall := 0
 	for _, fn := range w.RepoFuncs() {
 		for _, b := range fn.Blocks {
 			for _, in := range b.Instrs {
@@ -220,8 +221,21 @@ func propC20(w *World, r *Report) {
 					t := newTermEnv(w).termOf(call.Call.Args[0]).String()
 					r.Check(t == "60000000000", "G5", "limiter built in "+fn.Name()+" with one minute", w.InstrPos(call), t+" ns")
 				}
+				// the limiter's memory (last message, last print time) lives as long as its owner: a limiter is built and
+				// installed only while the owner is constructed, never replaced afterwards (a fresh one has forgotten
+				// what was printed, so a recurring message would be printed again inside the interval)
+				if call, ok := in.(*ssa.Call); ok && call.Call.StaticCallee() == ctor {
+					r.Check(fn.Signature.Recv() == nil && !inLoop(b), "G3", "limiter built once, in a constructor (not in a method or loop)", w.InstrPos(call), fn.String())
+				}
+				if st, ok := in.(*ssa.Store); ok && isPtrTo(st.Val.Type(), T) {
+					if _, isField := st.Addr.(*ssa.FieldAddr); isField {
+						nInstall++
+						r.Check(fn.Signature.Recv() == nil && !inLoop(b), "G3", "limiter installed in its owner only at construction (never replaced)", w.InstrPos(st), fn.String())
+					}
+				}
 			}
 		}
 	}
 	r.Check(n >= 1, "G4", "the recorder builds a limiter", "-", fmt.Sprint(n))
+	r.Check(nInstall >= 1, "G4", "the limiter is installed in an owner", "-", fmt.Sprint(nInstall))
 }
